@@ -9,6 +9,11 @@ use std::sync::atomic::{AtomicU64, Ordering};
 /// The monitor classifies it as "budget exhausted", never as a library panic.
 pub struct TapeExhausted;
 
+/// Payload used by the RNG device when a library call keeps invoking it after 10 000 consecutive
+/// errors: the call is not going to return (reported as C11/non-termination).
+pub struct RngLivelock;
+pub const LIVELOCK_MARK: &str = "<rng-livelock>";
+
 #[derive(Clone, Debug, PartialEq, Eq)]
 pub struct PanicInfo {
     /// `file:line` with the /repo prefix stripped (no addresses, no thread ids).
@@ -54,6 +59,8 @@ pub fn install_hook() {
                 s.clone()
             } else if info.payload().downcast_ref::<TapeExhausted>().is_some() {
                 "<tape exhausted>".to_string()
+            } else if info.payload().downcast_ref::<RngLivelock>().is_some() {
+                LIVELOCK_MARK.to_string()
             } else {
                 "<non-string payload>".to_string()
             };
@@ -97,6 +104,13 @@ pub fn guard<T>(f: impl FnOnce() -> T) -> Guarded<T> {
         Err(payload) => {
             if payload.downcast_ref::<TapeExhausted>().is_some() {
                 return Guarded::Budget;
+            }
+            if payload.downcast_ref::<RngLivelock>().is_some() {
+                let _ = LAST_PANIC.with(|p| p.borrow_mut().take());
+                return Guarded::Panic(PanicInfo {
+                    location: LIVELOCK_MARK.into(),
+                    message: format!("{} the call kept invoking the RNG after it had returned 10000 consecutive errors — it does not terminate", LIVELOCK_MARK),
+                });
             }
             let info = LAST_PANIC.with(|p| p.borrow_mut().take()).unwrap_or(PanicInfo {
                 location: "?".into(),
